@@ -1,6 +1,13 @@
 import Indi.Properties.C02
+import Indi.Properties.Wire
 #print axioms Indi.Buf.C02_abstract
 #print axioms Indi.Buf.C02_fragmentation_independent
 #print axioms Indi.Buf.generated_tagsOk
 #print axioms Indi.Buf.generated_thresholds
 #print axioms Indi.Buf.cleanup_absorb
+#print axioms Indi.Xml.parseMsg_needsOpener
+#print axioms Indi.Xml.admissible_serElem
+#print axioms Indi.Xml.C02_wire
+#print axioms Indi.Xml.C02_wire'
+#print axioms Indi.Xml.parseDoc_prefix
+#print axioms Indi.Xml.parseDoc_opener
